@@ -221,4 +221,221 @@ theorem exec_names (c : Ctx) (n n2 : Name) (ns : List Name) (hok : ∀ x ∈ n :
   rw [h1, h2, execFrom_action_ok c _ _ 11 _ (act11_first c n n2 stk sv rt tb2 te2), h4]
   cases hx : Build.isWildName n <;> cases hy : Build.isWildName n2 <;> simp [hx, hy]
 
+/-! ### steps -/
+
+/-- `setLastNodeText(text)` (actions 4 and 7) after its capture -/
+theorem exec_setText (c : Ctx) (i : Nat) (hi : i = 4 ∨ i = 7) (n : N) (tl : List N) {p : Nat} {s r : List Char}
+    (h : Sfx c.input p (s ++ r)) (stk : List Item) (sv : List (List Item)) (rt : Option (List N)) (tb te : Nat)
+    (rest : List Tok) :
+    execFrom c ⟨.chain (n :: tl) :: stk, sv, rt, tb, te⟩ (.text p (p + s.length) :: .action i :: rest) =
+      execFrom c ⟨.chain (nSetText (String.ofList s) n :: tl) :: stk, sv, rt, p, p + s.length⟩ rest := by
+  rcases hi with rfl | rfl <;>
+  simp [execFrom_text, execFrom_action, act, act4, act7, setLastNodeText, St.text, textOf_sfx h, asNode,
+    bind, Except.bind]
+
+theorem exec_step_child (c : Ctx) (ad : Bool) (t k : String) (hk : childOK c.ext k) {p : Nat} {r : List Char}
+    (h : Sfx c.input p (Print.step ad (.child t k) ++ r)) (stk : List Item) (sv : List (List Item))
+    (rt : Option (List N)) (tb te : Nat) :
+    ∃ tb' te', ∀ rest, execFrom c ⟨stk, sv, rt, tb, te⟩ (tkStep ad p (.child t k) ++ rest) =
+      execFrom c ⟨.chain (rawStep c.acc ad (.child t k)) :: stk, sv, rt, tb', te'⟩ rest := by
+  by_cases hd : dotSpellable k.toList = true
+  · simp only [childOK, hd, if_true] at hk
+    cases ad with
+    | true =>
+      simp only [Print.step, childStr, hd, if_true] at h
+      refine ⟨p, p + (escDot k.toList).length, fun rest => ?_⟩
+      simp [tkStep, hd, execFrom_text, execFrom_action, act, act10, St.text, textOf_sfx h, hk, pushChildSingle,
+        push, bind, Except.bind, rawStep, rawStepQ, childRec, String.ofList_toList, mkInfo, rawInfo]
+    | false =>
+      simp only [Print.step, childStr, hd, if_true, Bool.false_eq_true, if_false, List.cons_append] at h
+      have h' : Sfx c.input p (('.' :: escDot k.toList) ++ r) := h
+      have hlen : p + 1 + (escDot k.toList).length = p + ('.' :: escDot k.toList).length := by
+        simp only [List.length_cons]; omega
+      refine ⟨p, p + ('.' :: escDot k.toList).length, fun rest => ?_⟩
+      simp only [tkStep, hd, if_true, Bool.false_eq_true, if_false, List.cons_append, List.nil_append, hlen]
+      rw [execFrom_text, execFrom_action_ok c _ ⟨.chain [.child (mkInfo c k false) k] :: stk, sv, rt, p + 1,
+        p + ('.' :: escDot k.toList).length⟩ 10 _ (by
+          rw [← hlen]
+          simp [act, act10, St.text, textOf_sfx h.tail, hk, pushChildSingle, push]),
+        exec_setText c 4 (.inl rfl) _ _ h']
+      simp [rawStep, rawStepQ, childRec, hd, nSetText, nMapInfoDeep, nMapInfo, mkInfo, rawInfo]
+  · have hd' : dotSpellable k.toList = false := by simpa using hd
+    simp only [childOK, hd', Bool.false_eq_true, if_false] at hk
+    simp only [Print.step, childStr, hd', Bool.false_eq_true, if_false] at h
+    have h1 : Sfx c.input (p + 1) (nameText (.key k) ++ (']' :: r)) := by
+      have := h
+      simp only [bracket, List.cons_append, List.append_assoc] at this
+      simpa [nameText] using this.tail
+    obtain ⟨tb1, te1, h2⟩ := exec_name c (.key k) hk h1 stk sv rt tb te
+    refine ⟨p, p + (bracket (quoted k)).length, fun rest => ?_⟩
+    simp only [tkStep, hd', Bool.false_eq_true, if_false, List.append_assoc, List.cons_append, List.nil_append]
+    rw [h2, nameNode, exec_setText c 7 (.inr rfl) _ _ h]
+    simp [rawStep, rawStepQ, childRec, hd', nSetText, nMapInfoDeep, nMapInfo, mkInfo, rawInfo]
+
+theorem exec_step_wild (c : Ctx) (ad : Bool) (t : String) {p : Nat} {r : List Char}
+    (h : Sfx c.input p (Print.step ad (.wild t) ++ r)) (stk : List Item) (sv : List (List Item))
+    (rt : Option (List N)) (tb te : Nat) :
+    ∃ tb' te', ∀ rest, execFrom c ⟨stk, sv, rt, tb, te⟩ (tkStep ad p (.wild t) ++ rest) =
+      execFrom c ⟨.chain (rawStep c.acc ad (.wild t)) :: stk, sv, rt, tb', te'⟩ rest := by
+  cases ad with
+  | true =>
+    refine ⟨tb, te, fun rest => ?_⟩
+    simp [tkStep, execFrom_action, act, act12, push, bind, Except.bind, rawStep, rawStepQ, wildStr, mkInfo, rawInfo]
+  | false =>
+    simp only [Print.step, wildStr, Bool.false_eq_true, if_false] at h
+    refine ⟨p, p + ['.', '*'].length, fun rest => ?_⟩
+    have hlen : p + 2 = p + ['.', '*'].length := rfl
+    simp only [tkStep, Bool.false_eq_true, if_false, List.cons_append, List.nil_append, hlen]
+    rw [execFrom_action_ok c _ ⟨.chain [.wild (mkInfo c "*" true)] :: stk, sv, rt, tb, te⟩ 12 _ rfl,
+      exec_setText c 4 (.inl rfl) _ _ h]
+    simp [rawStep, rawStepQ, wildStr, nSetText, nMapInfoDeep, nMapInfo, mkInfo, rawInfo]
+
+theorem map_setText_mid0 (c : Ctx) (T : String) (ns : List Name) :
+    List.map (midMapInfo (fun i => { i with text := T })) (ns.map (mid0 c)) = ns.map (rawMId c.acc T) := by
+  rw [List.map_map]
+  apply List.map_congr_left
+  intro n _
+  cases n <;> rfl
+
+theorem exec_step_multi (c : Ctx) (ad : Bool) (t : String) (ns : List Name) (hwf : stepWf ad (.multi t ns) = true)
+    (hok : ∀ n ∈ ns, nameOK c.ext n) {p : Nat} {r : List Char}
+    (h : Sfx c.input p (Print.step ad (.multi t ns) ++ r)) (stk : List Item) (sv : List (List Item))
+    (rt : Option (List N)) (tb te : Nat) :
+    ∃ tb' te', ∀ rest, execFrom c ⟨stk, sv, rt, tb, te⟩ (tkStep ad p (.multi t ns) ++ rest) =
+      execFrom c ⟨.chain (rawStep c.acc ad (.multi t ns)) :: stk, sv, rt, tb', te'⟩ rest := by
+  match ns, hwf, hok, h with
+  | [], hwf, _, _ => simp [stepWf] at hwf
+  | [_], hwf, _, _ => simp [stepWf] at hwf
+  | n :: n2 :: ns, _, hok, h =>
+    have h1 : Sfx c.input (p + 1) (joinComma ((n :: n2 :: ns).map nameText) ++ (']' :: r)) := by
+      have := h
+      simp only [Print.step, bracket, List.cons_append, List.append_assoc] at this
+      simpa using this.tail
+    obtain ⟨tb1, te1, h2⟩ := exec_names c n n2 ns hok h1 stk sv rt tb te
+    refine ⟨p, p + (Print.step ad (.multi t (n :: n2 :: ns))).length, fun rest => ?_⟩
+    simp only [tkStep, List.append_assoc, List.cons_append, List.nil_append]
+    rw [h2, exec_setText c 7 (.inr rfl) _ _ h]
+    simp only [rawStep, rawStepQ, nSetText, nMapInfoDeep, map_setText_mid0]
+    congr 5
+    cases (n :: n2 :: ns).all Build.isWildName <;> rfl
+
+theorem exec_step_union (c : Ctx) (ad : Bool) (t : String) (ss : List Sub) (hwf : stepWf ad (.union t ss) = true)
+    (hok : ∀ s ∈ ss, subOK c.ext s) {p : Nat} {r : List Char}
+    (h : Sfx c.input p (Print.step ad (.union t ss) ++ r)) (stk : List Item) (sv : List (List Item))
+    (rt : Option (List N)) (tb te : Nat) :
+    ∃ tb' te', ∀ rest, execFrom c ⟨stk, sv, rt, tb, te⟩ (tkStep ad p (.union t ss) ++ rest) =
+      execFrom c ⟨.chain (rawStep c.acc ad (.union t ss)) :: stk, sv, rt, tb', te'⟩ rest := by
+  match ss, hwf, hok, h with
+  | [], hwf, _, _ => simp [stepWf] at hwf
+  | s :: ss, _, hok, h =>
+    have h1 : Sfx c.input (p + 1) (joinComma ((s :: ss).map subText) ++ (']' :: r)) := by
+      have := h
+      simp only [Print.step, bracket, List.cons_append, List.append_assoc] at this
+      simpa using this.tail
+    obtain ⟨tb1, te1, h2⟩ := exec_union c s ss hok h1 stk sv rt tb te
+    refine ⟨p, p + (Print.step ad (.union t (s :: ss))).length, fun rest => ?_⟩
+    simp only [tkStep, List.append_assoc, List.cons_append, List.nil_append]
+    rw [h2, exec_setText c 7 (.inr rfl) _ _ h]
+    rfl
+
+/-- a step that is neither `..` nor a filter -/
+theorem exec_step_plain (c : Ctx) (ad : Bool) (s : Step) (hnd : ∀ s', s ≠ .desc s') (hnf : noFilterStep s = true)
+    (hwf : stepWf ad s = true) (hok : stepExtOK c.ext s) {p : Nat} {r : List Char}
+    (h : Sfx c.input p (Print.step ad s ++ r)) (stk : List Item) (sv : List (List Item))
+    (rt : Option (List N)) (tb te : Nat) :
+    ∃ tb' te', ∀ rest, execFrom c ⟨stk, sv, rt, tb, te⟩ (tkStep ad p s ++ rest) =
+      execFrom c ⟨.chain (rawStep c.acc ad s) :: stk, sv, rt, tb', te'⟩ rest := by
+  cases s with
+  | child t k => exact exec_step_child c ad t k hok h stk sv rt tb te
+  | wild t => exact exec_step_wild c ad t h stk sv rt tb te
+  | multi t ns => exact exec_step_multi c ad t ns hwf hok h stk sv rt tb te
+  | union t ss => exact exec_step_union c ad t ss hwf hok h stk sv rt tb te
+  | filter t q => cases hnf
+  | desc s' => exact absurd rfl (hnd s')
+
+/-- the flags `pushRecursiveChildIdentifier` reads off the node that follows `..` -/
+theorem pushRecursiveChild_raw (c : Ctx) (s : Step) (hnd : ∀ s', s ≠ .desc s') (hnf : noFilterStep s = true)
+    (st : St) :
+    pushRecursiveChild c (rawStep c.acc true s) st = push (.chain (rawStep c.acc false (.desc s))) st := by
+  cases s with
+  | child t k => rfl
+  | wild t => rfl
+  | multi t ns => rfl
+  | union t ss => rfl
+  | filter t q => cases hnf
+  | desc s' => exact absurd rfl (hnd s')
+
+theorem exec_step (c : Ctx) (ad : Bool) (s : Step) (hnf : noFilterStep s = true)
+    (hwf : stepWf ad s = true) (hok : stepExtOK c.ext s) {p : Nat} {r : List Char}
+    (h : Sfx c.input p (Print.step ad s ++ r)) (stk : List Item) (sv : List (List Item))
+    (rt : Option (List N)) (tb te : Nat) :
+    ∃ tb' te', ∀ rest, execFrom c ⟨stk, sv, rt, tb, te⟩ (tkStep ad p s ++ rest) =
+      execFrom c ⟨.chain (rawStep c.acc ad s) :: stk, sv, rt, tb', te'⟩ rest := by
+  by_cases hd : ∃ s', s = .desc s'
+  · obtain ⟨s', rfl⟩ := hd
+    have hwf' : ad = false ∧ stepWf true s' = true := by simpa [stepWf] using hwf
+    obtain ⟨rfl, hwf1⟩ := hwf'
+    have hnd : ∀ s'', s' ≠ .desc s'' := by
+      intro s'' he; subst he; simp [stepWf] at hwf1
+    have hnf' : noFilterStep s' = true := by simpa [noFilterStep] using hnf
+    have hok' : stepExtOK c.ext s' := by simpa [stepExtOK] using hok
+    have h1 : Sfx c.input (p + 2) (Print.step true s' ++ r) := by
+      have := h
+      simp only [Print.step, List.cons_append] at this
+      exact this.tail.tail
+    obtain ⟨tb1, te1, h2⟩ := exec_step_plain c true s' hnd hnf' hwf1 hok' h1 stk sv rt tb te
+    refine ⟨tb1, te1, fun rest => ?_⟩
+    simp only [tkStep, List.append_assoc, List.cons_append, List.nil_append]
+    have hne : ∃ a l, rawStep c.acc true s' = a :: l := by
+      cases s' <;> exact ⟨_, _, rfl⟩
+    obtain ⟨a, l, hal⟩ := hne
+    rw [h2, execFrom_action_ok c _ ⟨.chain (rawStep c.acc false (.desc s')) :: stk, sv, rt, tb1, te1⟩ 3 _ (by
+      simp only [act, act3, pop, hal, asNode, bind, Except.bind]
+      rw [← hal, pushRecursiveChild_raw c s' hnd hnf']; rfl)]
+  · exact exec_step_plain c ad s (fun s' he => hd ⟨s', he⟩) hnf hwf hok h stk sv rt tb te
+
+/-! ### functions -/
+
+theorem exec_fn (c : Ctx) (f : Fn) {p : Nat} {r : List Char} (h : Sfx c.input p (fnText f ++ r))
+    (stk : List Item) (sv : List (List Item)) (rt : Option (List N)) (tb te : Nat) :
+    ∀ rest, execFrom c ⟨stk, sv, rt, tb, te⟩ (tkFn f p ++ rest) =
+      (pushFunction c (String.ofList (fnText f)) (fnName f) ⟨stk, sv, rt, p, p + (fnText f).length⟩ >>=
+        fun st' => execFrom c st' rest) := by
+  intro rest
+  have h1 : Sfx c.input (p + 1) ((fnName f).toList ++ ('(' :: ')' :: r)) := by
+    have := h
+    simp only [fnText, List.cons_append, List.append_assoc] at this
+    simpa using this.tail
+  simp [tkFn, execFrom_text, execFrom_action, act, act6, act5, St.text, textOf_sfx h1, textOf_sfx h,
+    String.ofList_toList, push, pop, asStr, bind, Except.bind]
+
+/-! ### `childNode*` -/
+
+theorem exec_steps (c : Ctx) (sv : List (List Item)) (rt : Option (List N)) :
+    ∀ (ss : List Step) (p : Nat) (r : List Char) (stk : List Item) (tb te : Nat),
+      (∀ s ∈ ss, noFilterStep s = true ∧ stepWf false s = true ∧ stepExtOK c.ext s) →
+      Sfx c.input p (steps ss ++ r) →
+      ∃ tb' te', ∀ rest, execFrom c ⟨stk, sv, rt, tb, te⟩ (tkSteps p ss ++ rest) =
+        execFrom c ⟨(ss.map (fun s => Item.chain (rawStep c.acc false s))).reverse ++ stk, sv, rt, tb', te'⟩ rest := by
+  intro ss
+  induction ss with
+  | nil =>
+    intro p r stk tb te _ _
+    exact ⟨tb, te, fun rest => by simp [tkSteps]⟩
+  | cons s ss ih =>
+    intro p r stk tb te hok h
+    simp only [steps, List.append_assoc] at h
+    obtain ⟨hnf, hwf, hext⟩ := hok s (by simp)
+    obtain ⟨tb1, te1, h1⟩ := exec_step c false s hnf hwf hext h stk sv rt tb te
+    obtain ⟨tb2, te2, h2⟩ := ih (p + (Print.step false s).length) r (.chain (rawStep c.acc false s) :: stk) tb1 te1
+      (fun y hy => hok y (by simp [hy])) h.append
+    refine ⟨tb2, te2, fun rest => ?_⟩
+    simp only [tkSteps, List.append_assoc]
+    rw [h1, h2]
+    simp
+
+/-- `exec_steps` with `tb' = tb`, `te' = te` when there is no step -/
+theorem exec_steps_nil (c : Ctx) (st : St) (p : Nat) (rest : List Tok) :
+    execFrom c st (tkSteps p [] ++ rest) = execFrom c st rest := rfl
+
 end JPV.PP
